@@ -864,7 +864,7 @@ func (e *Engine) execInstr(st *State, instr ssa.Instruction) {
 		e.mapUpdate(st, in)
 	case *ssa.Range:
 		x := st.operand(in.X)
-		it := &mapIter{m: x}
+		it := &mapIter{m: x, started: "false"}
 		if x.K == KStr {
 			it.isStr = true
 			e.unsupported("range over string")
